@@ -201,10 +201,12 @@ class Elf(BinFormat):
     def getfileoffset(self, target):
         "converts given target virtual address back to offset in file"
         s, offset, base = self.getinfo(target)
-        if s != None:
+        if s is None:
+            result = None
+        elif isinstance(s, Phdr):
             result = s.p_offset + offset
         else:
-            result = None
+            result = s.sh_offset + offset
         return result
 
     def readsegment(self, S):
